@@ -55,7 +55,8 @@ def specialise(env, exp, info):
 
 def mk_step(enc, arch=6, sec=True, virt=False, vmsa=False, mode=None, it='any', e_sym=False, sym_sys=None,
             set_sys=None, tables=None, expect_class=True, extra_assume=None, fix=None, failed_cond=False,
-            havoc_scratch=False, foreign_config=None, reg_values=None, prehistory=None, mpu=None, mpu_rsize=None):
+            havoc_scratch=False, foreign_config=None, reg_values=None, prehistory=None, mpu=None, mpu_rsize=None,
+            foreign_before=None):
     """unit: all fields of the encoding, all registers/flags/mode symbolic"""
     cache = {}
     from vf import known
@@ -81,6 +82,19 @@ def mk_step(enc, arch=6, sec=True, virt=False, vmsa=False, mode=None, it='any', 
             cfg = dict(cfg, mpu_k=mpu)
 
         def build():
+            if foreign_before is not None:
+                # C20: ANOTHER processor instance, created from a different configuration file, has been constructed
+                # and stepped (two instructions from its reset state) before this instance is even constructed.  This
+                # instance's configuration is the one loaded last, so its step must equal its solo step -- unless
+                # something derived from the foreign configuration or run survives process-wide (a cached getter)
+                from armulator.armv6.arm_v6 import ArmV6 as _A
+                fcfg, fov = MC.std_cfg(**foreign_before)
+                fa = _A(MC.config_path(**fov))
+                for _ in range(2):
+                    try:
+                        fa.emulate_cycle()
+                    except Exception:
+                        pass
             m = MC.Machine(env, cfg, ov, thumb=E.thumb, mode=mode, it=(it if E.thumb else 'none'), e_sym=e_sym,
                            sym_sys=ssym, set_sys=sset, reg_values=reg_values)
             if mpu:
